@@ -89,7 +89,7 @@ def mapname(s):
 
 KEEP_STD = {"io::copy", "Read::read_to_string", "Seek::seek", "Arc::ptr_eq", "SystemTime::now", "mem::swap",
             "HashMap::insert", "HashMap::remove", "HashMap::get", "HashMap::get_mut", "HashMap::contains_key", "HashMap::entry",
-            "HashMap::iter", "HashSet::insert", "HashSet::remove", "Vec::push", "Vec::pop", "Cursor::new", "Write::write",
+            "HashMap::iter", "HashSet::insert", "HashSet::remove", "Vec::pop", "Cursor::new", "Write::write",
             "Write::flush", "str::starts_with", "str::ends_with", "str::contains", "str::rfind", "str::find", "str::split",
             "slice::copy_from_slice", "cmp::min", "u64::saturating_sub", "u64::checked_add", "u64::checked_sub",
             "OpenOptions::append", "OpenOptions::create", "OpenOptions::truncate", "OpenOptions::create_new", "OpenOptions::read"}
